@@ -66,7 +66,14 @@ impl Serializer for Tok {
     type SerializeStruct = serde::ser::Impossible<u8, SerErr>;
     type SerializeStructVariant = serde::ser::Impossible<u8, SerErr>;
     fn serialize_u8(self, v: u8) -> Result<u8, SerErr> {
-        // the payload forwards its own byte; answer depends on token and value
+        // the payload forwards its own byte; answer depends on token and value. When a failure is injected the
+        // SERIALIZER fails with a structured error of its own (not one made by `custom`, which a re-rendering
+        // through `Error::custom` could reproduce)
+        if let Some(code) = unsafe { SER_FAIL } {
+            if code >= 2 {
+                return Err(SerErr(code ^ self.0));
+            }
+        }
         Ok(self.0 ^ v)
     }
     fn serialize_unit(self) -> Result<u8, SerErr> {
@@ -110,7 +117,9 @@ impl Serialize for P {
             SER_CALLS += 1;
             SER_ADDR = self as *const P as usize;
             if let Some(code) = SER_FAIL {
-                return Err(<S::Error as serde::ser::Error>::custom(Code(code)));
+                if code < 2 {
+                    return Err(<S::Error as serde::ser::Error>::custom(Code(code)));
+                }
             }
         }
         s.serialize_u8(self.0)
@@ -126,7 +135,9 @@ impl core::fmt::Display for Code {
 fn ser_contract<Hd: Serialize>(handle: &Hd, payload_addr: usize, v: u8) {
     let tok: u8 = kani::any();
     let fail: bool = kani::any();
-    unsafe { SER_FAIL = if fail { Some(1) } else { None } };
+    let by_serializer: bool = kani::any();
+    kani::assume(tok != 255 ^ 9); // keep the serializer's own error distinct from what `custom` yields
+    unsafe { SER_FAIL = if fail { Some(if by_serializer { 9 } else { 1 }) } else { None } };
     let direct = P(v).serialize(Tok(tok));
     unsafe { SER_CALLS = 0 };
     let via = handle.serialize(Tok(tok));
@@ -136,7 +147,8 @@ fn ser_contract<Hd: Serialize>(handle: &Hd, payload_addr: usize, v: u8) {
         assert!(UNIT_CALLS == 0, "the handle made serializer calls of its own");
     }
     assert!(via == direct, "serialising the handle differs from serialising the value (result or error)");
-    kani::cover!(fail, "error path");
+    kani::cover!(fail && by_serializer, "error raised by the serializer itself");
+    kani::cover!(fail && !by_serializer, "error raised by the value");
     kani::cover!(!fail, "success path");
 }
 h!(q_ser_arc, {
